@@ -142,7 +142,7 @@ def collect(pid):
 
 
 LEMMAS = seq_props.LEMMAS_ITER + [
-    {"id": "L7", "statement": "unesc(esc s) = s, esc injective, no unescaped quote in esc s", "status": "proved in Lean (lemmas/L7_esc_injective.lean)"},
+    {"id": "L7", "statement": "unesc(esc s) = s, esc injective, no unescaped quote in esc s", "status": driver.lean_status("L7_esc_injective.lean")},
     {"id": "edge-agreement", "statement": "edges listed for parents in PRE(start; filter_, stop, maxlevel-1) and children passing filter_ "
      "and not stop = the parent-child pairs both of whose ends are declared (no edge names an undeclared node, no admitted link is missing)",
      "status": "assumed bridge (consequence of L5: a child of an admitted parent at depth < maxlevel-1 is admitted iff not stop); "
